@@ -81,6 +81,12 @@ def catalogue():
     # a step that declares branches AND acts (tree check only)
     C["branches_and_acts"] = (wf("m", [step("s1", [irq("x1"), irq("x2")], branches=[branch("b1", [step("s11", [irq("a1")])], **{"if": "c1"}), branch("b2", [step("s21", [irq("a2")])], **{"else": True})]),
                                        step("s2", [irq("a3")])]), {"c1": "$bool"})
+    # two branches that are both taken; the first one is a sequence, so completing its first act leaves work for the scheduler while the other branch waits for the client
+    C["two_seq_branches"] = (wf("m", [step("s1", branches=[branch("b1", [step("s11", [irq("a1"), irq("a1b")])], **{"if": "c1"}), branch("b2", [step("s21", [irq("a2")])], **{"if": "c2"})]),
+                                      step("s2", [irq("a3")])]), {"c1": "$bool", "c2": "$bool"})
+    # as above, but the work left for the scheduler FINISHES the first branch (a msg act completes by itself): worker and client both end a branch of s1
+    C["two_branches_msg"] = (wf("m", [step("s1", branches=[branch("b1", [step("s11", [irq("a1"), msg("m1")])], **{"if": "c1"}), branch("b2", [step("s21", [irq("a2")])], **{"if": "c2"})]),
+                                      step("s2", [irq("a3")])]), {"c1": "$bool", "c2": "$bool"})
     C["two_steps"] = (wf("m", [step("s1", [irq("a1")]), step("s2", [irq("a2")])]), {})
     C["one_irq"] = (wf("m", [step("s1", [irq("a1")])]), {})
     C["if_else_first"] = (wf("m", [step("s1", branches=[
